@@ -312,4 +312,23 @@ CHECKS = {
         "quick": [T("TestC20Sync", 2, 400, steps=30), T("TestC20Solo", 6, 8, steps=30), T("TestC20Raft", 8, 6, steps=30, shrink="5s")],
         "thorough": [T("TestC20Sync", 4, 30000, steps=30, timeout=3000), T("TestC20Solo", 6, 250, steps=30, timeout=3000), T("TestC20Raft", 16, 120, steps=30, timeout=3000, shrink="10s")],
     },
+    "C15": {
+        "level": "exploration",
+        "rule": ("rapid state machine on fresh nodes: 1-5 super admins, 0-2 normal governance admins registered at run time, "
+                 "audit on/off, per-module strategy drawn from expressions admitted by configuration checking (a > 0.5*t, a >= t, "
+                 "a >= 1, a > 0.6*t, a >= 2 && r == 0, a == 2). Actions: proposals created through real operations (service "
+                 "registration, appchain freeze (special), role registration (special type)), Vote(approve|reject|garbage|empty) "
+                 "by super/normal admins, the chain admin, an outsider, repeat voters, on open and finished proposals, "
+                 "WithdrawProposal by sponsor and by others. Oracle: tally kept by the harness from accepted vote transactions and "
+                 "the harness's own evaluation of the expression: an accepted vote comes from an administrator in the electorate "
+                 "recorded at creation who has not voted, on an open proposal, with a valid ballot (and such a vote must be "
+                 "accepted); recorded approve/against numbers and ballot map == tally; APPROVED by normal end => expr(a,r,t) and, "
+                 "for special proposals, a super admin voted; REJECTED by normal end => no reachable tally satisfies the expression; "
+                 "after an accepted vote the converse; concluded proposals never change a byte again; only the sponsor withdraws. "
+                 "Non-trivial = >=2 admins, a proposal that received an ineligible or repeated vote and later concluded."),
+        "assumptions": ["the electorate is not frozen/logged out while a proposal is open (available == initial electorate)",
+                        "ZeroPermission-strategy proposals are outside the statement ('under a voting strategy')"],
+        "quick": [T("TestC15", 8, 40, steps=30)],
+        "thorough": [T("TestC15", 16, 1500, steps=40, timeout=3000)],
+    },
 }
